@@ -269,14 +269,12 @@ impl Session {
                 match e {
                     Field::X(s) => {
                         if s != t {
-                            bad = Some(k);
-                            break;
+                            if bad.is_none() { bad = Some(k); }
                         }
                     }
                     Field::FA(v, tol) => match wire::parse_f(t) {
                         None => {
-                            bad = Some(k);
-                            break;
+                            if bad.is_none() { bad = Some(k); }
                         }
                         Some(m) => {
                             self.float_fields += 1;
@@ -289,8 +287,7 @@ impl Session {
                     },
                     Field::B1(b) => match t.parse::<i64>() {
                         Err(_) => {
-                            bad = Some(k);
-                            break;
+                            if bad.is_none() { bad = Some(k); }
                         }
                         Ok(m) => {
                             if (m - *b as i64).abs() > 1 {
@@ -298,15 +295,13 @@ impl Session {
                                 self.fail("within-one-8bit-step", "reference-evaluation", op, format!("implementation channel {}, reference {}", bv, m));
                             }
                             if m != *b as i64 {
-                                bad = Some(k);
-                                break;
+                                if bad.is_none() { bad = Some(k); }
                             }
                         }
                     },
                     Field::F(v) => match wire::parse_f(t) {
                         None => {
-                            bad = Some(k);
-                            break;
+                            if bad.is_none() { bad = Some(k); }
                         }
                         Some(m) => {
                             self.float_fields += 1;
@@ -314,8 +309,7 @@ impl Session {
                                 self.bitwise_mismatches += 1;
                             }
                             if !floats_close(*v, m) {
-                                bad = Some(k);
-                                break;
+                                if bad.is_none() { bad = Some(k); }
                             }
                         }
                     },
